@@ -42,6 +42,19 @@ typedef struct {
   } aliases[4];
 } sg_plan_t;
 
+static const struct {
+  const char *text, *eff;
+} sg_sortforms[] = {
+  { "130.155.160.0/255.255.240.0", "4:130.155.160.0/20;" },
+  { "130.155.0.0", "4:130.155.0.0/16;" },
+  { "10.0.0.0/8", "4:10.0.0.0/8;" },
+  { "192.168.5.0/24", "4:192.168.5.0/24;" },
+  { "192.0.2.77/32", "4:192.0.2.77/32;" },
+  { "2001:db8::/32", "6:2001:db8::/32;" },
+  { "fd00:1::/64", "6:fd00:1::/64;" },
+};
+#define SG_NSORTFORMS ((int)(sizeof(sg_sortforms) / sizeof(sg_sortforms[0])))
+
 static void sg_ws(vh_rng_t *r, cfg_bb_t *bb)
 {
   int n = vh_range(r, 1, 2);
@@ -253,26 +266,15 @@ static void sg_add(vh_rng_t *r, sg_plan_t *p, cfg_sys_t *sys, int kind)
       break;
     }
     default: { /* SG_SORTLIST */
-      static const struct {
-        const char *text, *eff;
-      } forms[] = {
-        { "130.155.160.0/255.255.240.0", "4:130.155.160.0/20;" },
-        { "130.155.0.0", "4:130.155.0.0/16;" },
-        { "10.0.0.0/8", "4:10.0.0.0/8;" },
-        { "192.168.5.0/24", "4:192.168.5.0/24;" },
-        { "192.0.2.77/32", "4:192.0.2.77/32;" },
-        { "2001:db8::/32", "6:2001:db8::/32;" },
-        { "fd00:1::/64", "6:fd00:1::/64;" },
-      };
       int    n = vh_range(r, 1, 3), k;
       size_t off = 0;
       p->expect[kind][0] = 0;
       cfg_bb_str(&p->resolv, "sortlist");
       for (k = 0; k < n; k++) {
-        int f = (int)vh_below(r, sizeof(forms) / sizeof(forms[0]));
+        int f = (int)vh_below(r, SG_NSORTFORMS);
         sg_ws(r, &p->resolv);
-        cfg_bb_str(&p->resolv, forms[f].text);
-        off += (size_t)snprintf(p->expect[kind] + off, sizeof(p->expect[kind]) - off, "%s", forms[f].eff);
+        cfg_bb_str(&p->resolv, sg_sortforms[f].text);
+        off += (size_t)snprintf(p->expect[kind] + off, sizeof(p->expect[kind]) - off, "%s", sg_sortforms[f].eff);
       }
       cfg_bb_str(&p->resolv, "\n");
       p->via[kind] = 0;
@@ -321,7 +323,14 @@ static void sg_add_hosts(vh_rng_t *r, sg_plan_t *p, cfg_sys_t *sys)
     if (vh_chance(r, 1, 6)) {
       sg_ws(r, &bb);
     }
+    if (vh_chance(r, 1, 5)) {
+      /* hosts(5): text from a '#' to the end of the line is a comment */
+      cfg_bb_str(&bb, vh_chance(r, 1, 2) ? " # 192.0.2.99 commented.out" : "\t#comment");
+    }
     cfg_bb_str(&bb, "\n");
+    if (vh_chance(r, 1, 6)) {
+      cfg_bb_str(&bb, vh_chance(r, 1, 2) ? "# 192.0.2.98 alpha\n" : "\n");
+    }
   }
   cfg_sys_set_file(sys, CF_HOSTS, bb.b, bb.len);
   cfg_bb_free(&bb);
@@ -498,6 +507,31 @@ static void prof_single(vh_rng_t *r, const vh_args_t *a)
     nv += sg_check(&p, &e, "init", &sys);
     nv += sg_check_lookups(&p, ch, "init", &sys);
     cfg_eff_free(&e);
+    if (nv == 0 && vh_chance(r, 1, 3)) {
+      /* ares_set_sortlist(3): a space separated list that replaces whatever was configured */
+      char   str[300] = "", want[300] = "";
+      size_t so = 0, wo = 0;
+      int    m = vh_range(r, 1, 4), q, src;
+      for (q = 0; q < m; q++) {
+        int f = (int)vh_below(r, SG_NSORTFORMS);
+        so += (size_t)snprintf(str + so, sizeof(str) - so, "%s%s", q ? (vh_chance(r, 1, 5) ? "  " : " ") : "",
+                               sg_sortforms[f].text);
+        wo += (size_t)snprintf(want + wo, sizeof(want) - wo, "%s", sg_sortforms[f].eff);
+      }
+      src = ares_set_sortlist(ch, str);
+      cfg_eff_read(ch, &e, 0);
+      CNT("single_setter_evaluations");
+      if (src != ARES_SUCCESS || strcmp(cfg_eff_get(&e, "i.sortlist"), want) != 0) {
+        vh_violation("cfg15:single:set-sortlist", "ares_set_sortlist(\"%s\") rc=%d, sortlist now %.200s, expected %.200s",
+                     str, src, cfg_eff_get(&e, "i.sortlist"), want);
+        nv++;
+      }
+      cfg_eff_free(&e);
+      /* from here on the sort list is the application's: keep the table entry in step */
+      p.used[SG_SORTLIST] = 1;
+      snprintf(p.expect[SG_SORTLIST], sizeof(p.expect[SG_SORTLIST]), "%s", want);
+      p.via[SG_SORTLIST] = 0;
+    }
     if (nv == 0) {
       cfg_reinit_await(ch);
       cfg_eff_read(ch, &e, 0);
